@@ -145,9 +145,19 @@ def hyp_case(draw, big):
     return case
 
 
-def parts(tier):
+def _parts(tier):
     return [
         Part("enum-patterns-windows", "enum", check=check, cases=enum_cases, exhaustive=True, shards={"quick": 16, "thorough": 16}),
         Part("hyp-profiles", "hyp", check=check, strategy=lambda t: hyp_case(True),
              examples={"quick": 3200, "thorough": 32000}, shards={"quick": 16, "thorough": 16}),
     ]
+
+
+def parts(tier):
+    ps = _parts(tier)
+    from .. import fuzz
+    if tier == "thorough" and fuzz.available():
+        # the same structured cases, generated coverage-guided: libFuzzer bytes drive the Hypothesis strategy (fuzz_one_input)
+        ps.append(Part("atheris-guided", "custom", check=[p for p in ps if p.name == "hyp-profiles"][0].check, shards={"quick": 1, "thorough": 8},
+                       run=lambda ctx, t, seed, idx, n: fuzz.hyp_campaign(ctx, "c10", "hyp-profiles", seed, idx, runs=30000)))
+    return ps
